@@ -38,6 +38,13 @@ def run(check: Check, repo: Repo, tier: str) -> None:
     K.variable_arm(check, repo)
     V.operation_scoped(check, repo, mods)
     V.leafs_partition(check, repo)
+    from rules import exec_rules as X
+
+    X.memo_discovery(check, repo, [repo.mod("validation.validation_context"), repo.mod("utilities.type_info")])
+    G.emptiness_guard(check, list(repo.mod("type.validate").functions()))
+    from rules import sdl_rules as D
+
+    D.assume_valid_fresh(check, repo)
     from rules import identity
     identity.check_id_pin(check, repo, [repo.mod("execution.executor"), repo.mod("pyutils.ref_map"), repo.mod("execution.collect_fields"),
                                         repo.mod("execution.values")])
